@@ -902,6 +902,23 @@ func (d *dtree) binop(st *dstate, x *ssa.BinOp) *Sym {
 			return boolSym(v != "true")
 		}
 		return &Sym{K: "atom", S: "!" + eqAtom}
+	case token.GTR, token.GEQ:
+		// x > y is the negation of x <= y (x >= y of x < y): both spellings share one atom
+		pos := token.LEQ
+		if x.Op == token.GEQ {
+			pos = token.LSS
+		}
+		atom := "(" + l.S + " " + pos.String() + " " + r.S + ")"
+		if v, ok := st.assign[atom]; ok {
+			return boolSym(v != "true")
+		}
+		return &Sym{K: "atom", S: "!" + atom}
+	case token.LEQ, token.LSS:
+		atom := "(" + l.S + " " + x.Op.String() + " " + r.S + ")"
+		if v, ok := st.assign[atom]; ok {
+			return boolSym(v == "true")
+		}
+		return &Sym{K: "atom", S: atom}
 	}
 	return &Sym{K: "atom", S: "(" + l.S + " " + x.Op.String() + " " + r.S + ")"}
 }
